@@ -17,6 +17,8 @@ def classify(stream, line, exp):
         return head + (' traced' if not exp.rstrip().endswith('; -') else '')
     if stream == 'num':
         return line.split(' ')[1]
+    if stream == 'json':
+        return ' '.join(x.strip() for x in exp.split(' ; ')[1:]) + (' nonfinite' if has_nonfinite_literal(line) else '')
     if stream == 'cmp':
         return 'cmp ' + t[0]
     return t[0]
@@ -34,5 +36,21 @@ def known_finding(pid, stream, line, exp, spec, known_ids):
         if f and f(stream, line, exp, spec): return kid
     return None
 
-KNOWN_PREDICATES = {}
-LAWS = {}
+def has_nonfinite_literal(line):
+    for m in re.finditer(r'\bN([0-9a-f]{16})\b', line):
+        if (int(m.group(1), 16) >> 52) & 0x7ff == 0x7ff: return True
+    return False
+
+def law_json_same(lines, exp):
+    """C12 as stated: both round-trip routes reproduce the tree"""
+    for k, (line, e) in enumerate(zip(lines, exp)):
+        if not line.startswith('json '): continue
+        parts = [x.strip() for x in e.split(' ; ')]
+        if len(parts) != 3 or parts[1] != 'same' or parts[2] != 'same':
+            yield (k, line, e, 'round trip through the JSON value and through JSON text yields the identical tree (same ; same)')
+
+KNOWN_PREDICATES = {
+    # D9: JSON has no representation for NaN / infinities; serde_json writes null, the value visitor rejects null
+    'C12-nonfinite-literal': lambda stream, line, exp, spec: stream.startswith('json') and has_nonfinite_literal(line),
+}
+LAWS = {'json_same': law_json_same}
